@@ -2,6 +2,7 @@ package main
 
 import (
 	"bytes"
+	"fmt"
 
 	"github.com/multiformats/go-multihash"
 
@@ -193,6 +194,61 @@ func gen(c *vlib.Ctx) {
 				// control: the forged CID is the first block this subscriber ever fetches
 				sc.Syncs = []SyncJ{{T: "one", Head: forged}, {T: "one", Head: ads}, {T: "ad", Head: link}, {T: "ad", Head: ads}}
 				runScn(c, sc, false)
+			}
+		}
+	}
+	// CIDs naming hash functions the subscriber has NO implementation of (multihash.GetHasher
+	// fails): a genuine sha2-256 advertisement links to one, or it is asked for directly; the
+	// publisher serves "the block" (a well-formed advertisement body, a plausible digest of
+	// 20 / 32 / 64 bytes in the CID), other bytes, or nothing.  A digest that cannot be
+	// computed has not matched: never stored, never hooked, the sync reaching it fails
+	{
+		var names []string
+		lens := []int{20, 32, 64}
+		for i, code := range []uint64{0x1012, 0xb401, 0x7777, 0x300001, 0x1100, 0xd4, 0x1053, 0xb3e0} {
+			if _, err := multihash.GetHasher(code); err == nil {
+				c.Count(fmt.Sprintf("unregistered:function-is-available:0x%x", code))
+				continue
+			}
+			names = append(names, fmt.Sprintf("code:0x%x/%d", code, lens[i%3]))
+			if i < 2 {
+				names = append(names, fmt.Sprintf("code:0x%x/%d", code, lens[(i+1)%3]), fmt.Sprintf("code:0x%x/%d", code, lens[(i+2)%3]))
+			}
+		}
+		// and, for contrast, available functions with a digest LONGER than they produce: the
+		// digest can be computed and cannot be equal (requested, rejected)
+		names = append(names, "code:0x12/64", "code:0x1b/48")
+		const ads = 2
+		for i, name := range names {
+			// a world of its own per CID: ads 1..2, the unverifiable block 3, the linking ad 4
+			base := Scn{Hash: "sha2-256", Ads: ads, Forge: []string{name}}
+			forged, link := ads+1, ads+2
+			for _, trusted := range []bool{false, true} {
+				run := func(syncs ...SyncJ) {
+					sc := base
+					sc.Trusted = trusted
+					sc.Syncs = syncs
+					runScn(c, sc, false)
+				}
+				for _, seg := range []int64{0, 1} {
+					// one walk: sha2-256 head -> unverifiable CID (-> genuine chain); then the genuine chain alone
+					run(SyncJ{T: "ad", Head: link, Seg: seg}, SyncJ{T: "ad", Head: ads, Seg: seg})
+				}
+				// asked for directly, after and before any other block
+				run(SyncJ{T: "one", Head: ads}, SyncJ{T: "one", Head: forged}, SyncJ{T: "ad", Head: link})
+				run(SyncJ{T: "one", Head: forged}, SyncJ{T: "one", Head: ads}, SyncJ{T: "ad", Head: link}, SyncJ{T: "ad", Head: ads})
+				if i >= 6 && i%3 != 0 {
+					continue
+				}
+				// the walk stops short of it (depth 1) / reaches it (depth 2)
+				run(SyncJ{T: "ad", Head: link, Depth: 1}, SyncJ{T: "ad", Head: link, Depth: 2}, SyncJ{T: "ad", Head: link, Depth: 1})
+				// whatever the publisher answers for it, should it be asked: other bytes, another block, nothing, 404
+				for _, f := range []Fault{{Kind: "flip", Arg: 9}, {Kind: "other", Arg: 1}, {Kind: "empty"}, {Kind: "status", Arg: 404}} {
+					f.Pos = 1
+					run(SyncJ{T: "ad", Head: link, Seg: int64(i % 2), Faults: []Fault{f}}, SyncJ{T: "ad", Head: ads})
+					f.Pos = 0
+					run(SyncJ{T: "one", Head: forged, Faults: []Fault{f}})
+				}
 			}
 		}
 	}
